@@ -198,3 +198,65 @@ func (in *Interp) domConst(t *Term) *Term {
 	}
 	return res
 }
+
+// ---- variables fixed by the path condition ----
+//
+// When concretising a size or index fixes the only variable it depends on
+// (N*2+1 == 75 leaves one N), the variable is bound to its value: later
+// branch conditions and sizes over bound variables are evaluated directly.
+
+func (in *Interp) evalBound(t *Term) *Term {
+	if len(in.bound) == 0 || t.Op == OpConst {
+		return nil
+	}
+	savedModel, savedMemo := in.model, in.evalMemo
+	in.model, in.evalMemo = in.bound, in.boundMemo
+	r := in.eval(t)
+	in.boundMemo = in.evalMemo
+	in.model, in.evalMemo = savedModel, savedMemo
+	return r
+}
+
+// fold returns the constant value of t when all its variables are bound.
+func (in *Interp) fold(t *Term) *Term {
+	if r := in.evalBound(t); r != nil {
+		return r
+	}
+	return t
+}
+
+// tryBind binds the only variable of t when the path condition leaves it a
+// single value.
+func (in *Interp) tryBind(t *Term) {
+	if in.spec > 0 || in.NoDomains {
+		return
+	}
+	si := in.soleVar(t)
+	if si.kind != 1 || si.v.S.K != SBV {
+		return
+	}
+	x := si.v
+	if _, ok := in.bound[x.Name]; ok {
+		return
+	}
+	if in.Solver.Check() != Sat {
+		return
+	}
+	m, err := in.Solver.GetValues([]*Term{x})
+	if err != nil {
+		return
+	}
+	mv, ok := m[x.Name]
+	if !ok {
+		return
+	}
+	c := BVConst128(mv.Hi, mv.Lo, x.S.W)
+	if in.Solver.CheckWith(Not(Eq(x, c))) != Unsat {
+		return
+	}
+	if in.bound == nil {
+		in.bound = map[string]ModelValue{}
+	}
+	in.bound[x.Name] = mv
+	in.boundMemo = nil
+}
